@@ -70,6 +70,8 @@ def poisson_patch(ctx, rng, kind, ename, deg, perdir):
     dim = m.dim()
     u = gen_solution(rng, dim, sol_deg, sol_perdir)
     c = rng.choice([0, 0, 1, 2.5])
+    if info.get("holes") and c == 0:
+        c = 1      # removed cells may disconnect the mesh: keep every component well posed
     f = -laplacian(u) + u * Fraction(c)
     uf, ff = pcall(u), pcall(f)
     gf = [pcall(u.deriv(i)) for i in range(dim)]
@@ -217,7 +219,16 @@ def projection_identity(ctx, rng):
         return False
     err = float(np.abs(y - xs).max())
     sc = max(1.0, float(np.abs(xs).max()))
-    tol = 1e-6 if fam == "global" else 1e-9
+    # "to rounding error": the error of solving M y = M x* is bounded by cond(M) * machine epsilon
+    from skfem import BilinearForm
+    try:
+        Md = basis._projection(basis.interpolate(xs))[0].toarray()
+        cond = float(np.linalg.cond(Md)) if Md.shape[0] <= 400 else 1e6
+    except Exception:
+        cond = 1e6
+    tol = max(1e-9, 1e-13 * cond)
+    if fam == "global":
+        tol = max(tol, 1e-6)
     if err > tol * sc:
         return ("L2 projection of a function already in the space does not return that function",
                 dict(descr, error=err), {"what": "projection", "mode": mode, "element": ename.split("(")[0]})
@@ -260,6 +271,9 @@ def run(ctx):
         except Exception as ex:
             if "Newton iteration" in repr(ex):
                 ctx.count("newton-inverse-did-not-converge(skipped)")
+                continue
+            if isinstance(ex, NotImplementedError) and "quadrature" in repr(ex):
+                ctx.count("default-order-beyond-tables(skipped)")     # composite elements with large maxdeg
                 continue
             ctx.violation("end-to-end solve raised " + exc_kind(ex), {"err": repr(ex), "trace": exc_trace()},
                           {"what": "raise"})
